@@ -23,6 +23,8 @@ const (
 const (
 	QuicFlag_HeaderForm_LongHeader  = 1
 	QuicFlag_LongPacketType_Initial = 0
+	// QuicFlag_LongPacketType_InitialV2 is the Initial packet type of QUIC v2.
+	QuicFlag_LongPacketType_InitialV2 = 1
 )
 
 const (
@@ -45,7 +47,7 @@ func IsLikelyQuicInitialPacket(buf []byte) bool {
 	if ((protectedFlag >> QuicFlag_HeaderForm) & 0b1) != QuicFlag_HeaderForm_LongHeader {
 		return false
 	}
-	if ((protectedFlag >> QuicFlag_LongPacketType) & 0b11) != QuicFlag_LongPacketType_Initial {
+	if ((protectedFlag >> QuicFlag_LongPacketType) & 0b11) != quicInitialPacketType(buf) {
 		return false
 	}
 
@@ -54,6 +56,16 @@ func IsLikelyQuicInitialPacket(buf []byte) bool {
 	// QUIC Initial packets for sniffing purposes.
 
 	return true
+}
+
+// quicInitialPacketType returns the long-header packet type bits that denote an
+// Initial packet for the version in buf: 0b00 in QUIC v1 and the drafts, 0b01 in
+// QUIC v2 (RFC 9369 section 3.2 renumbers the long packet types).
+func quicInitialPacketType(buf []byte) byte {
+	if len(buf) >= 5 && buf[1] == 0x6b && buf[2] == 0x33 && buf[3] == 0x43 && buf[4] == 0xcf {
+		return QuicFlag_LongPacketType_InitialV2
+	}
+	return QuicFlag_LongPacketType_Initial
 }
 
 func (s *Sniffer) SniffQuic() (d string, err error) {
@@ -109,7 +121,7 @@ func sniffQuicBlock(s *Sniffer, cryptos []*quicutils.CryptoFrameOffset, buf []by
 	if ((protectedFlag >> QuicFlag_HeaderForm) & 0b11) != QuicFlag_HeaderForm_LongHeader {
 		return cryptos, nil, ErrNotApplicable
 	}
-	if ((protectedFlag >> QuicFlag_LongPacketType) & 0b11) != QuicFlag_LongPacketType_Initial {
+	if ((protectedFlag >> QuicFlag_LongPacketType) & 0b11) != quicInitialPacketType(buf) {
 		return cryptos, nil, ErrNotApplicable
 	}
 
